@@ -14,6 +14,7 @@ import (
 	"fmt"
 	"math/big"
 	"os"
+	"strings"
 	"sync"
 	"time"
 
@@ -533,7 +534,7 @@ func c08KeygenRunFrost(a []string) string {
 
 // real FROST refresh (tss/frost/resharing) starting from the fixture shares (3 parties, threshold 1) over the committee
 // `spec` (fixture indexes and/or `n` for a newcomer without a share, e.g. 0,1,2 | 0,1 | 0,1,2,n)
-func c08Refresh(spec string, nthr int, seed uint64, tag string) (ks []keyshare.FrostKeyshare, peers []peer.ID, pk []byte, fail string) {
+func c08Refresh(spec string, nthr int, seed uint64, tag string, start ...keyshare.FrostKeyshare) (ks []keyshare.FrostKeyshare, peers []peer.ID, pk []byte, fail string) {
 	all, err := c08FixturePeers()
 	if err != nil {
 		return nil, nil, nil, "nofixture"
@@ -548,6 +549,9 @@ func c08Refresh(spec string, nthr int, seed uint64, tag string) (ks []keyshare.F
 		k, err := c08FrostFixture(int(u64(it)))
 		if err != nil {
 			return nil, nil, nil, "nofixture"
+		}
+		if len(start) > len(stores) { // a later refresh of a chain: the share stored by the previous one
+			k = start[len(stores)]
 		}
 		pk = k.Key.PublicKey
 		peers = append(peers, all[int(u64(it))])
@@ -574,12 +578,21 @@ func c08Refresh(spec string, nthr int, seed uint64, tag string) (ks []keyshare.F
 	return ks, peers, pk, ""
 }
 
-// refreshrun frost <committee> <new threshold> <seed>  =>  ok | reason   (relations on the refreshed shares)
+// refreshrun frost <committee> <new threshold, or several in turn joined by `-`, e.g. 2-1> <seed>  =>  ok | reason
+// (relations on the refreshed shares after the LAST refresh; a chain of two refreshes takes ~22 s: VERIF_LONG_OPS=1 to replay)
 func c08RefreshRunFrost(a []string) string {
-	nthr := int(u64(a[2]))
-	ks, _, pk, fail := c08Refresh(a[1], nthr, u64(a[3]), a[3])
-	if fail != "" {
-		return fail
+	var ks []keyshare.FrostKeyshare
+	var pk []byte
+	nthr := 1
+	for round, it := range strings.Split(a[2], "-") {
+		nthr = int(u64(it))
+		var fail string
+		var k2 []keyshare.FrostKeyshare
+		k2, _, pk, fail = c08Refresh(a[1], nthr, u64(a[3])+uint64(round), a[3]+"-"+itoa(round), ks...)
+		if fail != "" {
+			return fail
+		}
+		ks = k2
 	}
 	if r := c08SharesOfOneKey(ks, pk, nthr); r != "" {
 		return r
@@ -591,10 +604,16 @@ func c08RefreshRunFrost(a []string) string {
 // refresh, then a REAL signing session of the named members with their refreshed shares; the signature must verify
 // under the unchanged (tweaked) group key
 func c08RefreshSignFrost(a []string) string {
-	nthr, seed := int(u64(a[2])), u64(a[4])
-	ks, peers, pk, fail := c08Refresh(a[1], nthr, seed, a[4])
-	if fail != "" {
-		return "refresh-" + fail
+	seed := u64(a[4])
+	var ks []keyshare.FrostKeyshare
+	var peers []peer.ID
+	var pk []byte
+	for round, it := range strings.Split(a[2], "-") { // one threshold, or several refreshes in turn (2-1)
+		k2, p2, pk2, fail := c08Refresh(a[1], int(u64(it)), seed+uint64(round), a[4]+"-"+itoa(round), ks...)
+		if fail != "" {
+			return "refresh-" + fail
+		}
+		ks, peers, pk = k2, p2, pk2
 	}
 	digest := make([]byte, 32)
 	copy(digest, []byte("c08 refreshsign "+a[4]))
@@ -722,4 +741,7 @@ func genC08Runs(g *G) {
 	g.Emit("refreshsign", "frost", "0,1,2", "2", "0,1,2", itoa(1+g.Intn(1000)))
 	g.Emit("refreshsign", "frost", "0,2", "1", "0,1", itoa(1+g.Intn(1000)))
 	g.Emit("refreshsign", "frost", "0,1,2,n", "1", "0,3", itoa(1+g.Intn(1000))) // known finding: the newcomer cannot sign
+	g.Emit("refreshrun", "frost", "0,1,2", "2-1", itoa(1+g.Intn(1000)))        // known finding: a refresh cannot LOWER the threshold
+	g.Emit("refreshsign", "frost", "0,1,2", "2-1", "0,1", itoa(1+g.Intn(1000)))
+	g.Emit("refreshsign", "frost", "0,1,2", "2-1", "0,1,2", itoa(1+g.Intn(1000))) // (all three still can)
 }
